@@ -255,6 +255,15 @@ Definition ms_open_session (st : ms_mstate) : ms_mstate * list ms_obs :=
 (* after run_task returned Ok: back to the top of the ms_run loop *)
 Definition ms_task_done (st : ms_mstate) : ms_mstate * list ms_obs := ms_schedule (ms_set_phase st (MsPIdle None)).
 
+(* the running task of `dest` fails with `e`: Task::on_task_error, the notification, and back to
+   the top of the run loop *)
+Definition ms_fail_task (st : ms_mstate) (dest : N) (t : ms_task) (k : ms_ttype) (e : ms_err) (restart : bool)
+  : ms_mstate * list ms_obs :=
+  let now := ms_m_now st in
+  let '(st1, o) := ms_update_assoc st dest (ms_task_error now t e restart) in
+  let '(st2, o2) := ms_task_done st1 in
+  (st2, o ++ [MsOFail now dest k e] ++ o2).
+
 (* ---- received fragments ------------------------------------------------------------------------------ *)
 
 Definition ms_unsolicited (st : ms_mstate) (src : N) (f : ms_rxfrag) : ms_mstate * list ms_obs :=
@@ -266,23 +275,15 @@ Definition ms_touch (st : ms_mstate) (addr : N) : ms_mstate :=
 Definition ms_rx_nonread (st : ms_mstate) (dest : N) (t : ms_task) (k : ms_ttype) (fc0 : N) (seq : N)
   (deadline : ms_time) (src : N) (r : ms_rx) : ms_mstate * list ms_obs :=
   let now := ms_m_now st in
-  let fail e restart :=
-    let '(st1, o) := ms_update_assoc st dest (ms_task_error now t e restart) in
-    let '(st2, o2) := ms_task_done st1 in
-    (st2, o ++ [MsOFail now dest k e] ++ o2) in
   match r with
-  | MsRxBad => fail MsETransport false
+  | MsRxBad => ms_fail_task st dest t k MsETransport false
   | MsRxResp f =>
       let st := ms_touch st src in
-      let fail e restart :=
-        let '(st1, o) := ms_update_assoc st dest (ms_task_error now t e restart) in
-        let '(st2, o2) := ms_task_done st1 in
-        (st2, o ++ [MsOFail now dest k e] ++ o2) in
       if ms_r_uns f then ms_unsolicited st src f
       else if negb (N.eqb src dest) then (st, [])
       else if negb (N.eqb (ms_r_seq f) seq) then (st, [])
-      else if negb (ms_r_fir f && ms_r_fin f) then fail MsEMultiFragment false
-      else if ms_iin_bad_request f then fail MsEIin2 (ms_iin_restart f)
+      else if negb (ms_r_fir f && ms_r_fin f) then ms_fail_task st dest t k MsEMultiFragment false
+      else if ms_iin_bad_request f then ms_fail_task st dest t k MsEIin2 (ms_iin_restart f)
       else
         match ms_find_assoc dest (ms_m_assocs st) with
         | None => (st, [])
@@ -313,16 +314,10 @@ Definition ms_rx_read (st : ms_mstate) (dest : N) (t : ms_task) (seq : N) (first
   let now := ms_m_now st in
   let k := ms_task_type t in
   match r with
-  | MsRxBad =>
-      let '(st1, o) := ms_update_assoc st dest (ms_task_error now t MsETransport false) in
-      let '(st2, o2) := ms_task_done st1 in
-      (st2, o ++ [MsOFail now dest k MsETransport] ++ o2)
+  | MsRxBad => ms_fail_task st dest t k MsETransport false
   | MsRxResp f =>
       let st := ms_touch st src in
-      let fail e :=
-        let '(st1, o) := ms_update_assoc st dest (ms_task_error now t e false) in
-        let '(st2, o2) := ms_task_done st1 in
-        (st2, o ++ [MsOFail now dest k e] ++ o2) in
+      let fail e := ms_fail_task st dest t k e false in
       if ms_r_uns f then ms_unsolicited st src f
       else if negb (N.eqb src dest) then (st, [])
       else if negb (N.eqb (ms_r_seq f) seq) then (st, [])
@@ -337,9 +332,7 @@ Definition ms_rx_read (st : ms_mstate) (dest : N) (t : ms_task) (seq : N) (first
             let '(a1, seen) := ms_process_iin now f a in
             let st1 := ms_set_assocs st (ms_put_assoc a1 (ms_m_assocs st)) in
             if negb (ms_r_ok f) then
-              let '(st2, o) := ms_update_assoc st1 dest (ms_task_error now t MsEMalformed false) in
-              let '(st3, o2) := ms_task_done st2 in
-              (st3, seen ++ o ++ [MsOFail now dest k MsEMalformed] ++ o2)
+              let '(st3, o) := ms_fail_task st1 dest t k MsEMalformed false in (st3, seen ++ o)
             else
               let delivered := seen ++ [MsOCb now dest (ms_read_type t) (ms_r_nvalues f)] in
               let confirm := if ms_r_con f then [MsOTx now (ms_confirm_sol_bytes seq)] else [] in
@@ -404,14 +397,8 @@ Definition ms_fire (st : ms_mstate) : ms_mstate * list ms_obs :=
   let now := ms_m_now st in
   match ms_m_phase st with
   | MsPIdle _ => ms_task_done st
-  | MsPRun (MsRNonRead dest t k _ _ _) =>
-      let '(st1, o) := ms_update_assoc st dest (ms_task_error now t MsETimeout false) in
-      let '(st2, o2) := ms_task_done st1 in
-      (st2, o ++ [MsOFail now dest k MsETimeout] ++ o2)
-  | MsPRun (MsRRead dest t _ _ _) =>
-      let '(st1, o) := ms_update_assoc st dest (ms_task_error now t MsETimeout false) in
-      let '(st2, o2) := ms_task_done st1 in
-      (st2, o ++ [MsOFail now dest (ms_task_type t) MsETimeout] ++ o2)
+  | MsPRun (MsRNonRead dest t k _ _ _) => ms_fail_task st dest t k MsETimeout false
+  | MsPRun (MsRRead dest t _ _ _) => ms_fail_task st dest t (ms_task_type t) MsETimeout false
   | MsPRun (MsRLink dest p _) =>
       let res := match p with Some tok => [MsORes now tok (Some MsETimeout)] | None => [] end
                  ++ [MsOLinkEnd now dest] in
